@@ -9,6 +9,11 @@ from exactly_lib.util.interval.w_inversion import intervals, combinations
 from exactly_lib.impls.types.condition import comparators
 
 M = Module('C13')
+# thorough tier: the contracts are installed as run-time monitors while these suites of the repository run
+M.conformance_suites = ['exactly_lib_test.impls.types.interval.z_package_suite',
+                        'exactly_lib_test.impls.types.line_matcher.z_package_suite',
+                        'exactly_lib_test.impls.types.string_transformer.filter.z_package_suite',
+                        'exactly_lib_test.util.interval.z_package_suite']
 
 P_INTERVALS = 'exactly_lib.util.interval.w_inversion.intervals'
 P_COMB = 'exactly_lib.util.interval.w_inversion.combinations'
